@@ -161,7 +161,7 @@ func hasCol(t *schema.Table, n string) bool {
 	return ok
 }
 
-func mkPlan(d *dialect, v int, scenario string) (*migrate.Plan, error) {
+func mkChanges(d *dialect, v int, scenario string) ([]schema.Change, error) {
 	var from *schema.Schema
 	to := mkSchema(d, v, nil)
 	switch scenario {
@@ -175,6 +175,14 @@ func mkPlan(d *dialect, v int, scenario string) (*migrate.Plan, error) {
 	changes, err := d.differ.SchemaDiff(from, to)
 	if err != nil {
 		return nil, fmt.Errorf("diff: %w", err)
+	}
+	return changes, nil
+}
+
+func mkPlan(d *dialect, v int, scenario string) (*migrate.Plan, error) {
+	changes, err := mkChanges(d, v, scenario)
+	if err != nil {
+		return nil, err
 	}
 	plan, err := d.planner.PlanChanges(context.Background(), "det_plan", changes)
 	if err != nil {
@@ -278,6 +286,44 @@ func allOps() []op {
 				return nil, err
 			}
 			return filesBytes(fs), nil
+		}})
+	}
+	// a schema split over files that share their base name (modules: billing/schema.hcl, accounts/schema.hcl, ...)
+	// and over files whose names differ only in letter case / extension part: evaluated, then marshalled and planned
+	for _, d := range dialects {
+		d := d
+		ops = append(ops, op{"evalfiles-" + d.name, func(v int) ([]byte, error) {
+			src, err := d.marshal.MarshalSpec(mkSchema(d, v, nil))
+			if err != nil {
+				return nil, err
+			}
+			blocks := splitBlocks(string(src))
+			dirs := []string{"billing", "accounts", "zeta", "alpha", "core"}
+			files := map[string]string{}
+			for i, b := range blocks {
+				n := filepath.Join("/src", dirs[i%len(dirs)], "schema.hcl")
+				if v == 2 && i%2 == 0 {
+					n = filepath.Join("/src", dirs[i%len(dirs)], "schema.pg.hcl")
+				}
+				files[n] += b
+			}
+			s, err := evalFiles(d, files)
+			if err != nil {
+				return nil, fmt.Errorf("eval: %w", err)
+			}
+			out, err := d.marshal.MarshalSpec(s)
+			if err != nil {
+				return nil, err
+			}
+			changes, err := d.differ.SchemaDiff(schema.New(d.schema), s)
+			if err != nil {
+				return nil, fmt.Errorf("diff: %w", err)
+			}
+			p, err := d.planner.PlanChanges(context.Background(), "det_plan", changes)
+			if err != nil {
+				return nil, fmt.Errorf("plan: %w", err)
+			}
+			return append(out, planBytes(p)...), nil
 		}})
 	}
 	ops = append(ops, op{"hash-memdir", func(v int) ([]byte, error) {
